@@ -411,6 +411,7 @@ fn read_cleartext_body<B: BufRead>(b: &mut B) -> Result<(String, String)> {
     let mut out = String::new();
 
     loop {
+        let line_start = out.len();
         let read = b.read_line(&mut out)?;
         // early end
         if read == 0 {
@@ -422,10 +423,10 @@ fn read_cleartext_body<B: BufRead>(b: &mut B) -> Result<(String, String)> {
             return Ok(("".to_string(), out));
         }
 
-        // Look for header start in the last line
-        if let Some(pos) = out.rfind("\n-----") {
+        // Look for header start in the last line (all earlier lines end in a line break)
+        if line_start > 0 && out[line_start..].starts_with("-----") {
             // found our end
-            let rest = out.split_off(pos + 1);
+            let rest = out.split_off(line_start);
 
             // remove trailing line break
             if out.ends_with("\r\n") {
